@@ -270,6 +270,27 @@ func (c *Ctx) havocLoop(s *State, header *ssa.BasicBlock) {
 	for _, a := range m.At {
 		c.havocAt(s, a.Heap, a.Base)
 	}
+	// a defer statement inside the loop body may have been executed by earlier iterations: its
+	// call runs at function exit with operands we do not know
+	li := c.eng.loopInfo(fr.fn)
+	for blk := range li.body[header] {
+		for _, in := range blk.Instrs {
+			if d, ok := in.(*ssa.Defer); ok {
+				dd := deferred{call: &d.Call, pos: posOf(c.eng.prog, d)}
+				if d.Call.IsInvoke() {
+					dd.fnVal = c.freshValue(s, d.Call.Value.Type(), "loopdefer.recv")
+				} else if _, isB := d.Call.Value.(*ssa.Builtin); !isB {
+					if _, isF := d.Call.Value.(*ssa.Function); !isF {
+						dd.fnVal = c.freshValue(s, d.Call.Value.Type(), "loopdefer.fn")
+					}
+				}
+				for _, a := range d.Call.Args {
+					dd.args = append(dd.args, c.freshValue(s, a.Type(), "loopdefer.arg"))
+				}
+				fr.defers = append(fr.defers, dd)
+			}
+		}
+	}
 	// ghost visited-sets of map ranges iterated in this loop
 	for r := range fr.rangeVisited {
 		fr.rangeVisited[r] = c.freshConst("visited", fr.rangeVisited[r].Sort)
@@ -443,6 +464,8 @@ func (c *Ctx) execMapUpdate(s *State, x *ssa.MapUpdate) {
 
 func (c *Ctx) mapDelete(s *State, m Term, mt *types.Map, k Value) {
 	kt := c.mapKeyTerm(s, k, mt.Key())
+	s.seq++
+	s.trace = append(s.trace, Event{Name: "mapdelete", Args: []Value{Sc{T: m}, Sc{T: kt}}, PC: len(s.pc), Seq: s.seq})
 	ks := mapKeySort(mt.Key())
 	hn, ln := mapHeapNames(mt)
 	h := c.getHeap(s, hn, ArrSort(SInt, ArrSort(ks, SBool)))
@@ -821,7 +844,11 @@ func (c *Ctx) doLock(s *State, in ssa.Instruction, key string, base Term, write 
 	}
 	s.locks = append(s.locks, LockHeld{Key: key, Base: base, Write: write, Level: lvl})
 	s.seq++
-	s.trace = append(s.trace, Event{Name: "lock:" + key, Args: []Value{Sc{T: base}}, PC: len(s.pc), Pos: pos, Seq: s.seq})
+	evn := "lock:" + key
+	if !write {
+		evn = "rlock:" + key
+	}
+	s.trace = append(s.trace, Event{Name: evn, Args: []Value{Sc{T: base}}, PC: len(s.pc), Pos: pos, Seq: s.seq})
 	// time passes while waiting for the lock
 	c.getHeap(s, "Clock", SInt)
 	c.havocHeap(s, "Clock")
